@@ -48,6 +48,15 @@ fn special_entries(rng: &mut impl Rng) -> Vec<u8> {
         b"-leading-dash".to_vec(),
         b"*?[glob]".to_vec(),
     ];
+    // links whose recorded size is enormous (sizes from the archive must not be used for allocation)
+    for (k, (kind, size)) in [(2u8, 1u128 << 63), (3, 1 << 46), (2, u128::MAX), (0, 1 << 62)].iter().enumerate() {
+        v.extend(frame(b"FHED", &fhed(*kind, format!("big{k}").as_bytes())));
+        let be = size.to_be_bytes();
+        let first = be.iter().position(|b| *b != 0).unwrap_or(15);
+        v.extend(frame(b"fSIZ", &be[first..]));
+        v.extend(frame(b"FDAT", b"t"));
+        v.extend(frame(b"FEND", &[]));
+    }
     for (i, n) in names.iter().enumerate() {
         let kind = [0u8, 0, 1, 2, 3][rng.gen_range(0..5)];
         v.extend(frame(b"FHED", &fhed(kind, n)));
@@ -105,7 +114,7 @@ pub fn cli_hostile(ctx: &mut Ctx) {
     let n = if ctx.thorough { 400 } else { 30 };
     for case in 0..n {
         let sbx = Sbx::new("hostile", case);
-        let kind = case % 6;
+        let kind = if case == 0 { 6 } else if case == 1 { 7 } else { case % 6 };
         let mut second: Option<Vec<u8>> = None;
         let archive: Vec<u8> = match kind {
             0 => hostile_stream(&mut rng),
@@ -160,6 +169,35 @@ pub fn cli_hostile(ctx: &mut Ctx) {
                 a
             }
             4 => special_entries(&mut rng),
+            6 => {
+                // well-formed key-derivation string with an extreme memory cost (4 TiB): the corpus witness of the known
+                // finding C07-kdf-cost-unbounded
+                let mut v = gen::SIG.to_vec();
+                v.extend(frame(b"AHED", &[0; 8]));
+                let mut h = vec![0u8, 0, 0, 0, 1, 1];
+                h.extend_from_slice(b"enc.bin");
+                v.extend(frame(b"FHED", &h));
+                v.extend(frame(b"PHSF", b"$argon2id$v=19$m=4294967295,t=1,p=1$c2FsdHNhbHRzYWx0"));
+                v.extend(frame(b"FDAT", &bytes(&mut rng, 48)));
+                v.extend(frame(b"FEND", &[]));
+                v.extend(frame(b"AEND", &[]));
+                v
+            }
+            7 => {
+                // an empty entry name and a 12 000-deep entry name (tree listing walks them)
+                let mut v = gen::SIG.to_vec();
+                v.extend(frame(b"AHED", &[0; 8]));
+                let deep: Vec<u8> = std::iter::repeat(b"d/".iter().copied()).take(12_000).flatten().chain(*b"f").collect();
+                for n in [&b""[..], &deep[..], b"/", b"a//b"] {
+                    let mut h = vec![0u8, 0, 0, 0, 0, 0];
+                    h.extend_from_slice(n);
+                    v.extend(frame(b"FHED", &h));
+                    v.extend(frame(b"FDAT", b"x"));
+                    v.extend(frame(b"FEND", &[]));
+                }
+                v.extend(frame(b"AEND", &[]));
+                v
+            }
             _ => {
                 // multipart: first part ends with ANXT; second part has a wrong number, is missing, or is hostile
                 let (a, _, _) = gen::gen_archive(&mut rng, 3, 100);
@@ -195,13 +233,14 @@ pub fn cli_hostile(ctx: &mut Ctx) {
             std::fs::write(sbx.path("h.part2.pna"), s).unwrap();
         }
         std::fs::write(sbx.path("extra.txt"), b"extra").unwrap();
-        ctx.count(&format!("input:{}", ["hostile-stream", "field-mutated", "field-mutated", "truncated-or-flipped", "edge-metadata", "multipart"][kind]));
+        ctx.count(&format!("input:{}", ["hostile-stream", "field-mutated", "field-mutated", "truncated-or-flipped", "edge-metadata", "multipart", "kdf-cost", "empty-and-deep-names"][kind]));
         let all_cmds: Vec<Vec<&str>> = vec![
             vec!["list", cmd_arch],
             vec!["list", "-l", cmd_arch],
             vec!["list", "-l", "--solid", "--password=pw", cmd_arch],
-            vec!["list", "--format", "jsonl", "--solid", cmd_arch],
-            vec!["list", "--format", "tree", "--solid", "--password=pw", cmd_arch],
+            vec!["list", "--unstable", "--format", "jsonl", "--solid", cmd_arch],
+            vec!["list", "--unstable", "--format", "tree", "--solid", "--password=pw", cmd_arch],
+            vec!["list", "--unstable", "--format", "tree", "--classify", cmd_arch],
             vec!["list", "-l", "--numeric-owner", "--show-xattr", "--show-acl", "--show-private", "--solid", cmd_arch],
             vec!["extract", cmd_arch, "--out-dir", "o1", "--overwrite"],
             vec!["extract", cmd_arch, "--out-dir", "o2", "--overwrite", "--password=pw", "--keep-timestamp", "--keep-permission", "--keep-xattr"],
@@ -223,18 +262,18 @@ pub fn cli_hostile(ctx: &mut Ctx) {
             vec!["experimental", "update", "--unstable", cmd_arch, "extra.txt"],
             vec!["append", cmd_arch, "extra.txt"],
         ];
-        let pick: Vec<usize> = if ctx.thorough { (0..all_cmds.len()).collect() } else { (0..all_cmds.len()).filter(|i| (i + case) % 3 == 0).collect() };
+        let pick: Vec<usize> = if ctx.thorough || kind == 7 || (kind == 4 && case < 12) { (0..all_cmds.len()).collect() } else if kind == 6 { (0..all_cmds.len()).filter(|i| *i == 0 || all_cmds[*i][0] == "extract").collect() } else { (0..all_cmds.len()).filter(|i| (i + case) % 3 == 0).collect() };
         for ci in pick {
             let mut argv = vec!["--quiet"];
             argv.extend(all_cmds[ci].iter());
             // the in-place commands last (they change the input); restore it afterwards
-            let r = run_pna(&sbx, &sbx.root, &argv, Some(b""), 20, &[]);
+            let r = if kind == 7 { crate::cli::run_pna_discard(&sbx, &sbx.root, &argv, 60) } else { run_pna(&sbx, &sbx.root, &argv, Some(b""), 20, &[]) };
             ctx.oracle_eval();
             ctx.count(&format!("cmd:{}", all_cmds[ci].iter().filter(|a| !a.starts_with('-') && !a.ends_with(".pna")).take(3).cloned().collect::<Vec<_>>().join(" ")));
             ctx.count(if r.ok() { "exit:ok" } else { "exit:error" });
             if r.crashed() || r.hung() {
                 let what = if r.hung() { "a CLI command does not terminate on a hostile archive" } else { "a CLI command panicked or was killed by a signal on a hostile archive" };
-                ctx.violation("C07", what, json!({"input_kind":kind,"argv":argv,"run":r.brief(),"archive":hex(&archive[..archive.len().min(6000)]),"second_part":second.as_ref().map(|s| hex(&s[..s.len().min(3000)]))}));
+                ctx.violation("C07", what, json!({"input_kind":kind,"kdf_cost_witness": kind == 6,"argv":argv,"run":r.brief(),"archive":hex(&archive[..archive.len().min(6000)]),"second_part":second.as_ref().map(|s| hex(&s[..s.len().min(3000)]))}));
             }
             if ci >= all_cmds.len() - 2 {
                 std::fs::write(sbx.path(name), &archive).unwrap();
